@@ -58,4 +58,10 @@ PROPS = {
         "explanation": "Tie B only: string programs over a multi-byte alphabet with exhaustive small strings and start/length grids.",
         "assumptions": ["a negative substring length is unspecified by FHIRPath: the model mirrors the code (the tail), the property predicate accepts a string or empty there"],
     },
+    "C05": {
+        "level_text": "Proof. Props/C05.v proves that the model of `= != < <= > >=` (Normalize promotion, the per-type TryEqual/Less, pairwise Collection.TryEqual) equals the reference comparison for operand collections of any length and content outside the one listed finding (number vs Quantity), and proves on the reference, for all values: = is symmetric, != is its negation or both are empty, < and > are converses, <= is not-> and >= is not-<, at most one of <,=,> holds, < is transitive across all kinds (mixed Integer/Decimal scales, mixed Date/DateTime precisions), an empty operand gives empty, and collection equality holds iff every corresponding pair is equal. The model is hand-written and tied by the correspondence run over all ordered pairs of the value pool.",
+        "level_note": "Trusted: Coq kernel, harness + hook (incl. its independent computation of UTC-normalised temporal components with Go's time package), check driver. Modelled rather than verified: system.Normalize/TryEqual (reflection dispatch), Date/DateTime/Time/Quantity TryEqual and Less, Collection.TryEqual; time.Equal/Before on equal-layout values are modelled as lexicographic comparison of all components; shopspring Decimal comparison as exact scaled integers.",
+        "explanation": "Tie B only: every ordered pair of a pool covering every System type, every temporal precision x offset form, Decimal scale variants, Quantities, FHIR primitives and complex elements; collections equal / differing at each position.",
+        "assumptions": ["a bare number compared with a Quantity is read, per FHIRPath's implicit conversion, as a Quantity of unit '1' (the code's different answer is the listed finding KF-C05-1)"],
+    },
 }
